@@ -165,6 +165,16 @@ fn gen_c01(tier: &str, rng: &mut Rng, emit: &mut dyn FnMut(Op)) {
     }
     // best_match on versions the rule calls equal although their component lists differ in
     // length (padding), in both argument orders and under several pattern kinds
+    // "also through best_match": a candidate without '-' is compared with the EMPTY version
+    for pat in ["p*", "*", "{p,p-[0-9]*}", "{p1,p-*}", "p?*"] {
+        for a in ["p", "p1", "p2.0", "pz", "p1a"] {
+            for v in ["", "0", "0.1", "1", "1alpha", "0rc1", "a"] {
+                let b2 = format!("p-{}", v);
+                emit(Op::s("pattern.best", &[pat, a, &b2]));
+                emit(Op::s("pattern.best", &[pat, &b2, a]));
+            }
+        }
+    }
     let pads = ["", ".0", ".", "_", "pl", ".0.0", "pl.", "0"];
     for base in ["1", "1.0", "2.5", "1a", "1.0rc1", "3nb2", "10.20"] {
         for x in pads {
@@ -218,7 +228,9 @@ fn gen_c03(tier: &str, rng: &mut Rng, emit: &mut dyn FnMut(Op)) {
 
 fn gen_c02(tier: &str, rng: &mut Rng, emit: &mut dyn FnMut(Op)) {
     let thorough = tier == "thorough";
-    let bases = ["", "a", "ab", "foo", "fo", "fooo", "foo-bar", "foo-", "-", "é", "foo-1", "f*o"];
+    let bases = ["", "a", "ab", "foo", "fo", "fooo", "foo-bar", "foo-", "-", "é", "foo-1", "f*o",
+        // blanks are ordinary characters of a base, at either end too
+        "foo ", " foo", "foo\t", "foo\u{a0}", "foo  ", "f oo", "foo\n"];
     let opw = [">", ">=", "<", "<="];
     let mut opstrs: Vec<Vec<&str>> = vec![];
     for a in opw {
@@ -231,7 +243,9 @@ fn gen_c02(tier: &str, rng: &mut Rng, emit: &mut dyn FnMut(Op)) {
         }
     }
     let bounds = ["", "1", "1.0", "2", "1.5nb2", "é", "=", "=1", "1a"];
-    let vers = ["", "0", "1", "1.0", "1.0nb1", "1.5", "2", "3", "1a", "1.0alpha", "é"];
+    let vers = ["", "0", "1", "1.0", "1.0nb1", "1.5", "2", "3", "1a", "1.0alpha", "é",
+        // a file-name like ending is part of the version text ("1.0.tgz" > "1.0")
+        "1.0.tgz", "1.tgz", "1.5.tgz", "2.tgz", "1.0.tar.gz", "1.0 ", " 1.0", "1.0\n", "1.0nb1.tgz", ".tgz"];
     let mut pats: Vec<String> = vec![];
     for base in bases {
         for ops in &opstrs {
@@ -272,6 +286,9 @@ fn gen_c02(tier: &str, rng: &mut Rng, emit: &mut dyn FnMut(Op)) {
             }
             5 => format!("{}-x", base),
             6 => format!("x-{}", base),
+            7 => base.trim_end().to_string(),
+            8 => base.trim().to_string(),
+            9 => format!("{} ", base),
             _ => base.replace('o', "0"),
         }
     };
@@ -280,7 +297,7 @@ fn gen_c02(tier: &str, rng: &mut Rng, emit: &mut dyn FnMut(Op)) {
         // the base as the model would read it is unknown to the generator: derive from text
         let base: String = p.chars().take_while(|c| *c != '<' && *c != '>').collect();
         for _ in 0..per_pat {
-            let k = if rng.chance(1, 2) { 0 } else { rng.below(8) };
+            let k = if rng.chance(1, 2) { 0 } else { rng.below(11) };
             let name = match rng.below(10) {
                 0 => variant(&base, k),
                 1 => format!("{}-{}-{}", variant(&base, k), rng.pick(&vers), rng.pick(&vers)),
@@ -292,8 +309,8 @@ fn gen_c02(tier: &str, rng: &mut Rng, emit: &mut dyn FnMut(Op)) {
     }
 }
 
-pub const PIECES18: [&str; 12] = [
-    "", "a", "-", "nb", "nb1", "nb12", "1.0", "anb", "nbnb3", "é", "123456789012345678", "NB4",
+pub const PIECES18: [&str; 14] = [
+    "", "a", "-", "nb", "nb1", "nb12", "1.0", "anb", "nbnb3", "é", "123456789012345678", "NB4", "NB", "nB2",
 ];
 
 fn gen_c18(tier: &str, rng: &mut Rng, emit: &mut dyn FnMut(Op)) {
@@ -326,6 +343,30 @@ fn gen_c18(tier: &str, rng: &mut Rng, emit: &mut dyn FnMut(Op)) {
     for (p, n) in [("foo<2", "foo-bar-1.0"), ("foo>=0", "foo-bar-1.0"), ("foo-bar>=0", "foo-bar-1.0"), ("pkg>=1.0nb3", "pkg-1.0nb9-0.5nb1"),
         ("pkg-1.0nb9>=0", "pkg-1.0nb9-0.5nb1"), ("php56>=5", "php56-mysql-5.6"), ("a>=0", "a--1")] {
         emit(Op::s("dewey.match", &[p, n]));
+    }
+    // "the revision the version comparison uses": a name and a bound whose components tie under
+    // padding (1 = 1.0 = 1pl = 1_) are decided by the two revisions, whichever side is longer
+    let spell = ["1", "1.0", "1pl", "1_", "1.0.0", "2.5", "2.5.0", "1a", "1.0a"];
+    let revs = ["", "nb1", "nb3", "nb5", "nb05", "NB3", "nb3nb", "nb"];
+    for v in spell {
+        for w in spell {
+            for k in revs {
+                for j in revs {
+                    let o = *rng.pick(&[">", ">=", "<", "<="]);
+                    emit(Op::s("dewey.match", &[&format!("pkg{}{}{}", o, w, j), &format!("pkg-{}{}", v, k)]));
+                    if thorough {
+                        for o2 in [">", ">=", "<", "<="] {
+                            emit(Op::s("dewey.match", &[&format!("pkg{}{}{}", o2, w, j), &format!("pkg-{}{}", v, k)]));
+                        }
+                    }
+                }
+            }
+        }
+    }
+    for n in ["mktool-1.3.2NB2", "x-1nB", "dnb-2.0-SNB", "x-1Nb7", "x-1nb7NB8", "x-1NB7nb8", "x-NB", "NB1", "x-1.0nb\u{ff11}", "x-1.0nb1\u{212A}"] {
+        emit(Op::s("pkgname.new", &[n]));
+        emit(Op::s("summary.pkgsplit", &[n]));
+        emit(Op::s("pkgname.dewey", &[n]));
     }
     for _ in 0..(if thorough { 20000 } else { 1000 }) {
         let k = rng.range(1, 6);
@@ -382,12 +423,16 @@ fn gen_c19(tier: &str, rng: &mut Rng, emit: &mut dyn FnMut(Op)) {
         emit(Op::s("pkgpath.new", &[p]));
         emit(Op::new("path.comps", &[p.as_bytes()]));
     }
-    for p in ["foo/bar", "foo//bar//", "../../foo/bar/", "\0", "é/ü", "../../é/ü", "a/b\n", " a/b", "a/ b"] {
+    for p in ["foo/bar", "foo//bar//", "../../foo/bar/", "\0", "é/ü", "../../é/ü", "a/b\n", " a/b", "a/ b",
+        // names are taken as they are: trailing dots, blanks and line ends belong to the name
+        "cat/pkg.", "cat/pkg..", "cat/...", "cat./pkg", "../../cat/pkg.", "cat/.pkg", "cat/pkg/.", "cat/pkg./", "cat/pkg\n", "cat/pkg/\n",
+        "cat/\n", "cat/pkg\r\n", "cat/pkg\r", "cat/pkg ", "cat/pkg\t", "\ncat/pkg", "cat/pkg/ ", "../../cat/pkg\n", "cat/pkg\n\n"] {
         emit(Op::s("pkgpath.new", &[p]));
         emit(Op::new("path.comps", &[p.as_bytes()]));
     }
     // equality of spellings
-    let goods = ["a/b", "../../a/b", "a//b", "a/./b", "a/b/", "a/b/.", "..//..//a//b//", "../.././a/b", "b/a", "../../b/a", "a/a", "a/b/c"];
+    let goods = ["a/b", "../../a/b", "a//b", "a/./b", "a/b/", "a/b/.", "..//..//a//b//", "../.././a/b", "b/a", "../../b/a", "a/a", "a/b/c",
+        "a/b.", "../../a/b.", "a/b..", "a./b", "a/b\n", "a/b "];
     for x in goods {
         for y in goods {
             emit(Op::s("pkgpath.eq", &[x, y]));
@@ -402,7 +447,9 @@ fn gen_c19(tier: &str, rng: &mut Rng, emit: &mut dyn FnMut(Op)) {
     let pats = ["foo-[0-9]*", "foo>=1", "{a,b}-1", "foo", "", "foo>1>2", "foo-[0-9", "{a", "a}b{", "foo<1<2<3", "é*"];
     let pths = ["a/b", "../../a/b", "a//b/", "a", "", "../a/b", "a/b/c", "./a/b", "/a/b", "a/..",
         // the path half is parsed exactly like PkgPath::new parses it on its own
-        "../../../../a/b", "../..//a/b", "..//../a/b", "../../a/b/", "../../../a/b", "../../a", "../../a/b/c", "../../a/./b"];
+        "../../../../a/b", "../..//a/b", "..//../a/b", "../../a/b/", "../../../a/b", "../../a", "../../a/b/c", "../../a/./b",
+        // line ends and blanks after the path are part of it
+        "a/b\n", "a/b/\n", "a/\n", "a/b\r\n", "a/b\r", "a/b ", "a/b.", "../../a/b\n", "a/b/ ", "\na/b"];
     for q in &paths {
         // every PKGPATH spelling of the C19 path generator also as the path half of a Depend
         emit(Op::s("depend.new", &[&format!("foo>=1:{}", q)]));
@@ -741,6 +788,35 @@ fn gen_c05(tier: &str, rng: &mut Rng, emit: &mut dyn FnMut(Op)) {
             emit(Op::s("pattern.quick", &[p, &n]));
         }
     }
+    // star-free globs against names with multi-byte characters ('?' and a set take ONE character)
+    for (p, ns) in [("caf?-1.0", vec!["café-1.0", "cafe-1.0", "caf\u{1F496}-1.0", "caf-1.0", "cafée-1.0"]),
+        ("na[!a-z]ve-[0-9]", vec!["naïve-1", "naive-1", "na€ve-1", "naïve-x"]),
+        ("café-1.?", vec!["café-1.0", "café-1.", "café-1.00", "cafe-1.0"]),
+        ("[é]?[é]", vec!["éaé", "ééé", "éa", "eae"]), ("??", vec!["é", "éé", "ab", "a", "€€", "€"]),
+        ("?", vec!["é", "€", "\u{1F496}", "", "ab"]), ("[a-é]x", vec!["bx", "éx", "êx"])] {
+        emit(Op::s("pattern.new", &[p]));
+        emit(Op::s("glob.new", &[p]));
+        for n in ns {
+            emit(Op::s("pattern.match", &[p, n]));
+            emit(Op::s("glob.match", &[p, n]));
+            emit(Op::s("pattern.quick", &[p, n]));
+        }
+    }
+    // the whole name takes part in the match: file-name like endings are ordinary text
+    for (p, ns) in [("foo-1.0", vec!["foo-1.0.tgz", "foo-1.0", "foo-1.0.tar.gz", "foo-1.0 ", "foo-1.0\n"]),
+        ("foo-1.0.tgz", vec!["foo-1.0.tgz", "foo-1.0", "foo-1.0.tgz.tgz"]),
+        ("foo-1.?", vec!["foo-1.0.tgz", "foo-1.0", "foo-1.0 "]), ("*.tgz", vec!["foo-1.0.tgz", "foo-1.0", ".tgz", "tgz"]),
+        ("foo-1.0.tg?", vec!["foo-1.0.tgz", "foo-1.0.tg", "foo-1.0"]), ("foo-[0-9]*", vec!["foo-1.0.tgz", "foo-1.tgz"]),
+        (".tgz", vec![".tgz", ""]), ("", vec![".tgz", ""]), ("a ", vec!["a", "a ", "a  "]), ("a?", vec!["a", "a ", "a\n"])] {
+        emit(Op::s("pattern.new", &[p]));
+        for n in ns {
+            emit(Op::s("pattern.match", &[p, n]));
+            emit(Op::s("pattern.quick", &[p, n]));
+            if p.contains(|c| "*?[".contains(c)) {
+                emit(Op::s("glob.match", &[p, n]));
+            }
+        }
+    }
     // plain patterns
     for p in ["foo-1.0", "a", "", "ab", "é", "a-b", "-", "A1"] {
         emit(Op::s("pattern.new", &[p]));
@@ -774,11 +850,20 @@ fn bracketings(rng: &mut Rng, n: usize) -> Vec<u8> {
 
 fn gen_c06(tier: &str, rng: &mut Rng, emit: &mut dyn FnMut(Op)) {
     let thorough = tier == "thorough";
-    let pats = ["foo-[0-9]*", "foo>=1", "foo>1<3", "{foo,bar}-[0-9]*", "{foo,bar}>=1", "foo-1.0", "*-[0-9]*", "*", "{foo,bar,baz}-*", "f*"];
-    let bases = ["foo", "bar", "baz", "fo", "foo-x"];
+    let pats = ["foo-[0-9]*", "foo>=1", "foo>1<3", "{foo,bar}-[0-9]*", "{foo,bar}>=1", "foo-1.0", "*-[0-9]*", "*", "{foo,bar,baz}-*", "f*",
+        // patterns that accept names WITHOUT a '-' (their version is the empty text)
+        "foo*", "{foo,foo-[0-9]*}", "{foo,bar}*", "[fb]*", "fo?*"];
+    let bases = ["foo", "bar", "baz", "fo", "foo-x", "foo1", "fooa", "foo1.0"];
     let vers = ["1", "1.0", "1.0.0", "1.0nb1", "1.1", "2", "2.0", "3", "0.5", "1a", "1.5", "1.0alpha", "1.0rc1", "1_0", "1.0pl", "10", "1.97", "1.0a",
         // pre = rc = -1 (one component each); characters that only LOOK like letters are ignored
-        "1.0pre1", "1.0pre2", "1.0rc2", "1.0PRE1", "1.0\u{212A}", "1.0\u{130}", "1.0\u{17F}", "1.0k"];
+        "1.0pre1", "1.0pre2", "1.0rc2", "1.0PRE1", "1.0\u{212A}", "1.0\u{130}", "1.0\u{17F}", "1.0k",
+        // a later "nb" without (usable) digits resets the revision to 0; several nb tokens
+        "1.0nb2", "1.0nb3", "1.0nb3nb", "1.0nb4nb", "1.0nb", "1.0nb3nb1", "1.0nb3nb99999999999999999999", "1.0nb3nbx",
+        // long digit runs: by value when they fit (leading zeros), i64::MAX when they do not
+        "00000000000000000002", "000000000000000000010", "1.000000000000000000007", "1.7",
+        "99999999999999999999", "9223372036854775807", "1.0nb00000000000000000003",
+        // file-name like endings are part of the version text
+        "1.0.tgz", "1.0.tar.gz", "1.0 ", "1.0\n"];
     let mk = |rng: &mut Rng| -> String {
         match rng.below(12) {
             0 => rng.pick(&bases).to_string(),
@@ -803,6 +888,15 @@ fn gen_c06(tier: &str, rng: &mut Rng, emit: &mut dyn FnMut(Op)) {
                     args.push(c.as_bytes());
                 }
                 emit(Op::new("pattern.reduce", &args));
+            }
+        }
+    }
+    // a candidate without '-' has the empty version, whatever its name looks like
+    for p in ["foo*", "*", "{foo,foo-[0-9]*}", "{rc,rc-[0-9]*}", "f*", "{foo,bar}*"] {
+        for a in ["foo", "foo1", "foo2.0", "fooz", "rc", "bar", "bar9"] {
+            for b2 in ["foo-0.1", "foo-0", "foo-", "rc-0", "foo-1.0alpha", "bar-0.1", "foo", "foo9", "rc"] {
+                emit(Op::s("pattern.best", &[p, a, b2]));
+                emit(Op::s("pattern.best", &[p, b2, a]));
             }
         }
     }
